@@ -105,6 +105,18 @@ def r12_1(ctx):
     ctx.check("the immediate's copy-assignment consumes the raw pure", got == {'SETL("s", s)'}, 'SETL("s", s)', str(sorted(got)), fn_where(idx, fa))
 
 
+def external_parameter_checks(ctx):
+    """pkt / hi / bundle are Parameter objects that live as long as the Compiler: what a read of them prints must not depend on
+    how often they were read before (they are plugin C values, never DUP'ed)"""
+    idx = get_index(ctx.env)
+    fi = idx.func("Parameter.il_read")
+    for nm, groups in (("bundle", ("EXTERNAL",)), ("pkt", ("EXTERNAL",)), ("hi", ("EXTERNAL", "CONST"))):
+        for start in (0, 1, 7):
+            outs, _ = seq_calls(idx, fi, lambda nm=nm, groups=groups, start=start: AObj("Parameter", {"reads": start, "name": nm, "isa_name": None, "value_type": mk_vt("pt", False, 64, groups)}, label="self"), 2)
+            got = [[normalise(to_text(x)) for x in o.value] if o.kind == "return" else outcome_text(o) for o in outs]
+            ctx.check(f"external parameter {nm} read after {start} earlier reads", got == [[nm, nm]], str([nm, nm]), str(got), fn_where(idx, fi))
+
+
 @rule("R12.2", "C12", "single initialisation: a PureExec / Hybrid prints its initialiser at most once", min_instances=3)
 def r12_2(ctx):
     idx = get_index(ctx.env)
